@@ -49,3 +49,10 @@ pub fn err_str(e: &lol_html::errors::RewritingError) -> &'static str {
 pub fn enc_index(e: &'static encoding_rs::Encoding) -> usize {
     lol_html::test_utils::ASCII_COMPATIBLE_ENCODINGS.iter().position(|x| *x == e).map(|i| if e == encoding_rs::UTF_8 { 0 } else { i + 1 }).unwrap_or(999)
 }
+
+// ---- per-thread output buffer: cases write their log here, the driver prints or collects it
+thread_local! { pub static OUT: std::cell::RefCell<String> = std::cell::RefCell::new(String::new()); }
+pub fn emit(s: String) { OUT.with(|o| { let mut o = o.borrow_mut(); o.push_str(&s); o.push('\n'); }); }
+pub fn take_out() -> String { OUT.with(|o| std::mem::take(&mut *o.borrow_mut())) }
+#[macro_export]
+macro_rules! outln { ($($arg:tt)*) => { $crate::util::emit(format!($($arg)*)) }; }
